@@ -110,6 +110,10 @@ def strategy(tier):
       vel=st.sampled_from([0.0, 0.3, 1.0]),
       fold=st.sampled_from([False, False, True]),
       # hand-written <deformable><flex> over user bodies with free / ball / hinge / slide joints in separate kinematic trees, vertices offset from the body frames
+      # contact parameter mixing: priorities of the flex and of the geom, a geom condim of its own (the higher priority side wins, else the max condim)
+      fprio=st.sampled_from([0, 0, 0, 1, 2]),
+      gprio=st.sampled_from([0, 0, 1]),
+      gcondim=st.sampled_from([0, 0, 1, 3, 4, 6]),
       raw=st.sampled_from([0, 0, 0, 1]),
       raw_n=st.integers(3, 5),
       raw_joints=st.lists(st.sampled_from(["free", "free", "ball", "hinge", "slide", "none"]), min_size=5, max_size=5),
@@ -151,7 +155,7 @@ def _flex_xml(case, geom_xml=""):
     extra = f' thickness="{case["thickness"]}" elastic2d="{case["elastic2d"]}"' if dim == 2 else ""
     inner.append(f'<elasticity young="{case["young"]}" poisson="{float(case["poisson"]):.6f}" damping="{case["edamp"]}"{extra}/>')
   sc = "none" if interp else case["selfcollide"]
-  inner.append(f'<contact selfcollide="{sc}" internal="false" condim="{case["condim"]}" margin="{case["margin"]}" friction="{float(case["friction"]):.6f} 0.005 0.0001"/>')
+  inner.append(f'<contact selfcollide="{sc}" internal="false" condim="{case["condim"]}" priority="{int(case.get("fprio", 0))}" margin="{case["margin"]}" friction="{float(case["friction"]):.6f} 0.005 0.0001"/>')
   nvert = int(np.prod(count)) if typ != "circle" else count[0]
   pins = []
   if not interp and dof == "full":
@@ -187,6 +191,12 @@ def _flex_xml(case, geom_xml=""):
 
 def _geom_xml(case, info, vx):
   """Places the colliding geom under vertex `tv` at the drawn penetration (vx: flex vertex positions at qpos0)."""
+  x = _geom_xml0(case, info, vx)
+  extra = f' priority="{int(case.get("gprio", 0))}"' + (f' condim="{int(case["gcondim"])}"' if case.get("gcondim") else "")
+  return x.replace('<geom name="col"', '<geom name="col"' + extra) if x else x
+
+
+def _geom_xml0(case, info, vx):
   g = case["geom"]
   kind = g["kind"]
   if kind == "none":
@@ -657,7 +667,7 @@ def check(case, rec):
     return
   dim = info["dim"]
   rec.cls(
-    f"dim:{dim}", f"type:{info['typ']}", f"dof:{info['dof']}", f"mode:{info['mode']}", f"selfcollide:{info['selfcollide']}", f"geom:{'none' if case.get('raw') else case['geom']['kind']}", f"raw:{int(bool(case.get('raw')))}",
+    f"dim:{dim}", f"type:{info['typ']}", f"dof:{info['dof']}", f"mode:{info['mode']}", f"selfcollide:{info['selfcollide']}", f"geom:{'none' if case.get('raw') else case['geom']['kind']}", f"raw:{int(bool(case.get('raw')))}", f"prio:{'flex' if case.get('fprio', 0) > case.get('gprio', 0) else 'geom' if case.get('fprio', 0) < case.get('gprio', 0) else 'tie'}",
     f"geomfree:{bool(case['geom']['free'] and case['geom']['kind'] not in ('none', 'plane'))}", f"pins:{len(info['pins'])}", f"parent:{case['parent']}",
     f"cone:{case['cone']}", f"sparse:{bool(m.is_sparse)}", f"solver:{case['solver']}", f"nworld:{n}", f"folded:{folded}", f"condim:{case['condim']}",
   )  # fmt: skip
